@@ -90,29 +90,72 @@ func (tt *tokTrace) inFallback(i int) bool {
 	return !alive || monitor
 }
 
+// limRecoverBound is TokenBucket.tla's RecoverBound: the real time a reachable store may still
+// find an instance in fallback mode.
+const limRecoverBound = 10 * time.Second
+
 // settle waits (store up, no call in flight) until instance i is back on the store and its
-// monitor is gone, and logs the recovery if the instance had taken the fail path.  A state
-// that cannot change any more - fallback mode without a monitor - is logged as "stuck".
+// monitor is gone, and logs the recovery if the instance had taken the fail path.
+//
+// While it waits the driver PINGs the store with its own client and adds up the real time for
+// which the store has answered without a gap (only intervals between two successful probes at
+// most 150 ms apart count: a stalled test process earns no credit).  What it finds is logged,
+// not judged: fallback{i,ms} when the wait begins and - if the instance is still in fallback mode
+// when the credit reaches the specification's RecoverBound - once more with that credit, after
+// which the trace ends (the specification has no action for it).  A state that cannot change any
+// more - fallback mode without a monitor - is logged as "stuck".
 func (tt *tokTrace) settle(i int) {
-	deadline := time.Now().Add(60 * time.Second)
+	w := tt.w
+	bound := time.Duration(verifEnvInt("VERIF_TOKEN_RECOVER_MS", int(limRecoverBound/time.Millisecond))) * time.Millisecond
+	began := time.Now()
+	hard := began.Add(120 * time.Second)
+	var credit time.Duration
+	var last, lastProbe time.Time
+	logged := false
 	for {
 		alive, monitor := tt.flags(i)
 		if alive && !monitor {
 			break
 		}
 		if !alive && !monitor {
-			tt.w.emit(verifEv{"e": "stuck", "i": i})
+			w.emit(verifEv{"e": "stuck", "i": i})
+			w.retire = true
 			return
 		}
-		if time.Now().After(deadline) {
-			tt.w.t.Errorf("instance %d did not leave fallback mode within 60 s although the store answers PING", i)
-			tt.w.broken = true
+		if now := time.Now(); lastProbe.IsZero() || now.Sub(lastProbe) >= 20*time.Millisecond {
+			lastProbe = now
+			if w.probePing() {
+				now = time.Now()
+				if !last.IsZero() {
+					if gap := now.Sub(last); gap <= 150*time.Millisecond {
+						credit += gap
+					}
+				}
+				last = now
+			} else {
+				credit, last = 0, time.Time{}
+			}
+			limForgetFailures() // the store answers: the client's breaker must not hide it
+			if !logged && !last.IsZero() {
+				logged = true
+				w.emit(verifEv{"e": "fallback", "i": i, "ms": int(credit / time.Millisecond)})
+			}
+			if credit >= bound {
+				w.emit(verifEv{"e": "fallback", "i": i, "ms": int(credit / time.Millisecond)})
+				w.retire = true
+				return
+			}
+		}
+		if time.Now().After(hard) {
+			w.t.Errorf("instance %d did not leave fallback mode within 120 s and the driver's own client could not "+
+				"show the store reachable for %v without a gap", i, bound)
+			w.broken = true
 			return
 		}
 		time.Sleep(2 * time.Millisecond)
 	}
 	if atomic.SwapInt32(&tt.failed[i], 0) == 1 {
-		tt.w.emit(verifEv{"e": "recover", "i": i})
+		w.emit(verifEv{"e": "recover", "i": i, "waited": int(time.Since(began) / time.Millisecond)})
 	}
 }
 
@@ -145,7 +188,7 @@ func (tt *tokTrace) holdOutage() {
 func (tt *tokTrace) end() {
 	tt.w.fault("up", false)
 	for i := range tt.lims {
-		if tt.w.broken {
+		if tt.w.broken || tt.w.retire {
 			return
 		}
 		tt.settle(i)
@@ -172,7 +215,7 @@ func TestVerifTokenReplay(t *testing.T) {
 		h := hs[job]
 		tt := tokBegin(w, h.Rate, h.Burst, n)
 		for _, op := range h.Ops {
-			if w.broken {
+			if w.broken || w.retire {
 				return
 			}
 			switch op.Op {
@@ -202,7 +245,7 @@ func TestVerifTokenReplay(t *testing.T) {
 		// closing probe of the bucket the history left behind: an instance asks until it is
 		// refused, the clock moves to the next whole second (sometimes a little short of it),
 		// and it asks for what a second brings
-		if probe && !w.broken {
+		if probe && !w.broken && !w.retire {
 			i := job % n
 			for r := 0; r < h.Burst+1; r++ {
 				tt.allow(i, 1, false)
@@ -294,7 +337,7 @@ func TestVerifTokenRandom(t *testing.T) {
 		closedOK := verifThorough() && job%25 == 7
 		budget := 4
 		ln := 15 + rnd.Intn(length)
-		for k := 0; k < ln && !w.broken; k++ {
+		for k := 0; k < ln && !w.broken && !w.retire; k++ {
 			i := rnd.Intn(n)
 			switch x := rnd.Intn(100); {
 			case x < 55:
@@ -375,7 +418,7 @@ func TestVerifTokenConcurrent(t *testing.T) {
 		n := 1 + rnd.Intn(4)
 		tt := tokBegin(w, rate, burst, n)
 		faulty := rnd.Intn(2) == 0
-		for rd := 0; rd < rounds && !w.broken; rd++ {
+		for rd := 0; rd < rounds && !w.broken && !w.retire; rd++ {
 			k := 2 + rnd.Intn(7)
 			flavour := "plain"
 			switch x := rnd.Intn(10); {
@@ -430,7 +473,7 @@ func TestVerifTokenConcurrent(t *testing.T) {
 			}
 			wg.Wait()
 			// sequential interlude
-			for s := rnd.Intn(4); s > 0 && !w.broken; s-- {
+			for s := rnd.Intn(4); s > 0 && !w.broken && !w.retire; s-- {
 				i := rnd.Intn(n)
 				switch x := rnd.Intn(10); {
 				case x < 3:
@@ -460,6 +503,81 @@ func TestVerifTokenConcurrent(t *testing.T) {
 					}
 				}
 			}
+		}
+		tt.end()
+	})
+}
+
+// TestVerifTokenOutage: outages that last in REAL time (the recovery monitor lives on a real
+// 100 ms ticker): 0 ms .. several seconds, error replies or dropped connections, 2..3 instances of
+// which some notice the outage; local calls and clock advances while it lasts; then the store
+// returns, every instance is waited for (settle: the driver's own client proves the store
+// reachable and the time an instance lingers in fallback mode is logged for the specification to
+// judge) and all instances ask the one shared bucket again.
+func TestVerifTokenOutage(t *testing.T) {
+	em := verifOpen(t)
+	defer em.Close()
+	defer limInstallClock()()
+	type plan struct {
+		holdMs int
+		drop   bool
+	}
+	plans := []plan{{1300, false}, {1250, true}, {300, false}}
+	if verifThorough() {
+		plans = nil
+		for _, h := range []int{0, 120, 600, 1100, 1600, 2600, 4200} {
+			plans = append(plans, plan{h, false}, plan{h, true}, plan{h + 77, false})
+		}
+	}
+	limRunTraces(t, em, limPar(), len(plans), func(w *limWorld, job int) {
+		rnd := verifRand(11000 + int64(job))
+		pl := plans[job]
+		rate, burst := tokParams(rnd)
+		n := 2 + rnd.Intn(2)
+		tt := tokBegin(w, rate, burst, n)
+		for r := rnd.Intn(4); r > 0; r-- {
+			tt.allow(rnd.Intn(n), tokSize(rnd, burst), false)
+		}
+		w.fault("down", pl.drop)
+		for j := 0; j < n; j++ { // instance 0 always notices, the others mostly
+			if j == 0 || rnd.Intn(3) > 0 {
+				tt.allow(j, tokSize(rnd, burst), false)
+			}
+		}
+		for until := time.Now().Add(time.Duration(pl.holdMs) * time.Millisecond); time.Now().Before(until); {
+			time.Sleep(40 * time.Millisecond)
+			switch x := rnd.Intn(10); {
+			case x < 3:
+				tt.allow(rnd.Intn(n), tokSize(rnd, burst), false)
+			case x < 4:
+				w.advance(tokAdvance(rnd, w.clk, rate, burst))
+			}
+		}
+		w.fault("up", false)
+		for r := rnd.Intn(3); r > 0 && !w.broken; r-- { // calls in the window before the monitors notice
+			tt.allow(rnd.Intn(n), tokSize(rnd, burst), false)
+		}
+		for j := 0; j < n && !w.broken && !w.retire; j++ {
+			tt.settle(j)
+		}
+		if w.broken || w.retire {
+			return
+		}
+		// everybody is back: the instances take turns at the one bucket until each was refused, the
+		// clock moves to the next whole second, and they ask for what a second brings
+		for j := 0; j < n; j++ {
+			for r, refused := 0, 0; r < burst+2 && refused < 1; r++ {
+				t0 := w.clk
+				ok, path, msg := tt.call(j, t0, 1, false)
+				w.emit(verifEv{"e": "allow", "i": j, "t": int(t0), "n": 1, "ok": ok, "path": path, "err": msg})
+				if !ok {
+					refused++
+				}
+			}
+		}
+		w.advance(int(1000 - w.clk%1000))
+		for j := 0; j < n; j++ {
+			tt.allow(j, 1+rnd.Intn(rate), false)
 		}
 		tt.end()
 	})
